@@ -38,6 +38,40 @@ type factMethod struct {
 	CallsHeld []string `json:"callsHeld"`
 	CallsFree []string `json:"callsFree"`
 	AccFree   []string `json:"accFree"`
+	RLock     bool     `json:"rlock"`
+	Mutates   bool     `json:"mutates"`
+	ValueRecv bool     `json:"valueRecv"`
+}
+
+// mutatesWithin mirrors LockFacts.mutatesWithin.
+func (f lockFacts) mutatesWithin(typ, m string, fuel int) bool {
+	if fuel == 0 {
+		return true
+	}
+	M := f.method(typ, m)
+	if M == nil {
+		return false
+	}
+	if M.Mutates {
+		return true
+	}
+	for _, c := range append(append([]string{}, M.CallsHeld...), M.CallsFree...) {
+		if f.mutatesWithin(typ, c, fuel-1) {
+			return true
+		}
+	}
+	return false
+}
+
+// readLockWriters: exported methods that take only a read lock but write (tie A: no_write_under_read_lock)
+func (f lockFacts) readLockWriters(typ string) []string {
+	var out []string
+	for _, M := range f[typ] {
+		if M.Exported && M.RLock && f.mutatesWithin(typ, M.Name, len(f[typ])+1) {
+			out = append(out, M.Name)
+		}
+	}
+	return out
 }
 
 type lockFacts map[string][]factMethod
